@@ -43,6 +43,7 @@ def main():
 
     hashseeds = a.hashseeds.split(',') if a.hashseeds else (['0'] if a.tier == 'quick' else ['0', '1', '2'])
     evs, rc, alllines = [], 0, []
+    if os.environ.get('VERIF_SCRATCH'): os.makedirs(os.environ['VERIF_SCRATCH'], exist_ok=True)
     # replays of earlier runs are stale: the directory only holds the violations of this run
     repdir = os.path.join(os.environ.get('VERIF_SCRATCH') or os.path.join(VERIF, 'replays'), pid)
     if os.path.isdir(repdir):
